@@ -60,7 +60,7 @@ def replay_file(path, quiet=False):
   with open(path) as f:
     rf = json.load(f)
   profile = get_profile(rf["profile"])
-  r = execute(profile, cfg=rf["cfg"], events=rf["events"], time_limit=120)
+  r = execute(profile, cfg=rf["cfg"], events=rf["events"], time_limit=min(120, profile.run_time_limit))
   if not quiet:
     if r.violation:
       print("replay: %s/%s at event %s: %s" % (r.violation["prop"], r.violation["oracle"],
@@ -206,7 +206,7 @@ def main(argv=None):
       continue
     # confirm, minimise
     processed += 1
-    r2 = runmod.execute(profile, cfg=d["cfg"], events=events, time_limit=120)
+    r2 = runmod.execute(profile, cfg=d["cfg"], events=events, time_limit=min(120, profile.run_time_limit))
     if not runmod.same_failure(r2.violation, v):
       print("HARNESS-NONDETERMINISM run=%s seed=%s first=%s second=%s" % (
         d["run_index"], d["seed"], v, r2.violation))
@@ -215,7 +215,7 @@ def main(argv=None):
     if not args.no_minimise:
       events, nrep = runmod.minimise(profile, d["cfg"], events, v,
                                      budget_s=profile.minimise_budget)
-      r3 = runmod.execute(profile, cfg=d["cfg"], events=events, time_limit=120)
+      r3 = runmod.execute(profile, cfg=d["cfg"], events=events, time_limit=min(120, profile.run_time_limit))
       if runmod.same_failure(r3.violation, v):
         d = dict(d)
         d["violation"] = r3.violation
